@@ -34,8 +34,10 @@ class UserFunction:
     def __init__(self, fun, defaults={}, args={}):
         if isinstance(fun, (UserFunction, DomainUserFunction)):
             self.fun = fun.fun
-            self.defaults = fun.defaults
-            self.args = fun.args
+            # own containers: changing defaults of this wrapper must not
+            # change the wrapper it was created from
+            self.defaults = copy.copy(fun.defaults)
+            self.args = copy.copy(fun.args)
         else:
             self._transform_to_user_function(fun, defaults, args)
 
